@@ -689,5 +689,159 @@ def run(ctx, args):
     })
 
 
+GOSRC = os.path.join(GO124, "src")
+SYNC_FILES = ["mutex.go", "rwmutex.go", "waitgroup.go", "once.go", "cond.go", "runtime2.go"]
+SYNC_MAPS = [('"internal/race"', '"%s/race"' % native.VN, "race"), ('"internal/sync"', '"%s/isync"' % native.VN, "isync"),
+             ('"sync/atomic"', '"%s/latomic"' % native.VN, "atomic")]
+
+
+def build_layered(ctx):
+    """Go's own sync sources (toolchain in use) + internal/sync/mutex.go on top of the verbatim sema_llgo.go"""
+    for m in [LAT] + SYNC_MAPS:
+        if m not in native.IMPORT_MAP:
+            native.IMPORT_MAP.insert(0, m)
+    rd = lambda *q: open(os.path.join(H, *q)).read()
+    mains = {"main.go": rd("syncmain.go.txt"), "lrt/zz_access.go": rd("lrt_access.go.txt"),
+             "latomic/atomic.go": rd("standins", "latomic", "atomic.go"), "race/race.go": rd("standins", "race", "race.go"),
+             "isync/zz_runtime.go": rd("isync_runtime.go.txt"), "gsync/zz_runtime.go": rd("gsync_runtime.go.txt")}
+    other = {SEMA_SRC: ("lrt", "lrt"), os.path.join(GOSRC, "internal", "sync", "mutex.go"): ("isync", "sync")}
+    for f in SYNC_FILES:
+        other[os.path.join(GOSRC, "sync", f)] = ("gsync", "sync")
+    for q in other:
+        if not os.path.exists(os.path.join(REPO, q)):
+            raise HarnessBuildError("source missing: " + q)
+    return native.make_native(ctx, [], {}, mains, other=other, name="native-c11-sync")
+
+
+def judge_layered(scn, n, end, evs, final):
+    """contracts of Go's sync primitives, judged on the event log of the real stack. -> [(key or None, what)]"""
+    fails = []
+    if end.startswith("panic"):
+        return [(None, "the sync stack panicked: " + end)]
+    if scn == "mutex":
+        inside = set()
+        for (k, t, w) in evs:
+            if w == "enter":
+                if inside:
+                    fails.append((None, "Mutex: thread %d entered the critical section at step %d while %s is inside" % (t, k, sorted(inside))))
+                inside.add(t)
+            elif w == "leave":
+                inside.discard(t)
+        if end == "stuck":
+            fails.append((None, "Mutex: no thread can run although not all critical sections were executed (a waiter is never admitted)"))
+    elif scn == "rwmutex":
+        rd, wr = set(), set()
+        for (k, t, w) in evs:
+            if w == "wenter":
+                if rd or wr:
+                    fails.append((None, "RWMutex: writer %d entered at step %d with readers %s / writers %s inside" % (t, k, sorted(rd), sorted(wr))))
+                wr.add(t)
+            elif w == "renter":
+                if wr:
+                    fails.append((None, "RWMutex: reader %d entered at step %d while writer %s is inside" % (t, k, sorted(wr))))
+                rd.add(t)
+            elif w == "wleave":
+                wr.discard(t)
+            elif w == "rleave":
+                rd.discard(t)
+        if end == "stuck":
+            sems = dict(x.split("=") for x in final.split(","))
+            pos = [k_ for k_, v in sems.items() if int(v) > 0]
+            fails.append((K_CAS if pos else None,
+                          "RWMutex: no thread can run although lock requests are pending (%s%s)" %
+                          (final, "; a thread sleeps on a semaphore whose count is positive" if pos else "")))
+    elif scn == "waitgroup":
+        done = 0
+        for (k, t, w) in evs:
+            if w == "done":
+                done += 1
+            elif w == "waitret" and done != n - 1:
+                fails.append((None, "WaitGroup: Wait returned at step %d after %d of %d Done calls" % (k, done, n - 1)))
+        if end == "stuck":
+            fails.append((None, "WaitGroup: no thread can run although the counter reached zero / workers are pending (%s)" % final))
+    elif scn == "once":
+        begins = [e for e in evs if e[2] == "fbegin"]
+        ends = [e for e in evs if e[2] == "fend"]
+        if len(begins) > 1:
+            fails.append((None, "Once: the function ran %d times" % len(begins)))
+        for (k, t, w) in evs:
+            if w == "doret" and (not ends or ends[0][0] > k):
+                fails.append((None, "Once: Do returned at step %d before the function had completed" % k))
+        if end == "stuck":
+            fails.append((None, "Once: no thread can run although Do calls are pending"))
+    else:
+        starts = [(k, t) for (k, t, w) in evs if w == "waitstart"]          # order = ticket order (Wait registers under c.L)
+        ticket = {t: i for i, (k, t) in enumerate(starts)}
+        startk = {t: k for (k, t) in starts}
+        rets = []
+        for (k, t, w) in evs:
+            if w.startswith("waitret"):
+                rets.append((k, t, int(w.split(".")[2])))
+        sig, bc, open_ = [], [], {}
+        for (k, t, w) in evs:
+            if w in ("sigbegin", "bcbegin"):
+                open_[t] = k
+            elif w == "sigend":
+                sig.append((open_.pop(t), k, t))
+            elif w == "bcend":
+                bc.append((open_.pop(t), k, t))
+        inf = 1 << 60
+        for t, k in open_.items():            # still running at the end of the run
+            (sig if any(e == (k, t, "sigbegin") for e in evs) else bc).append((k, inf, t))
+        need = [(k, t, nn) for (k, t, nn) in rets if not any(e > startk[t] and b < k for (b, e, _) in bc)]
+        adj = [[j for j, (b, e, _) in enumerate(sig) if e > startk[t] and b < k] for (k, t, nn) in need]
+        if max_matching(adj, len(sig)) < len(need):
+            below = [(k, t, nn) for (k, t, nn) in need if nn < ticket[t]]
+            rest = [(k, t, nn) for (k, t, nn) in need if not nn < ticket[t]]
+            adj2 = [[j for j, (b, e, _) in enumerate(sig) if e > startk[t] and b < k] for (k, t, nn) in rest]
+            if below and max_matching(adj2, len(sig)) == len(rest):
+                bad, key = below, K_TICKET
+            else:
+                bad, key = need, None
+            for (k, t, nn) in bad:
+                fails.append((key, "Cond: Wait of thread %d (registered %d%s) returned at step %d although no Signal/Broadcast issued after it "
+                              "started waiting is available for it (notify counter %d then)" %
+                              (t, ticket[t] + 1, "st" if ticket[t] == 0 else "nd" if ticket[t] == 1 else "th", k, nn)))
+        if end == "stuck":
+            asleep = [t for t in startk if not any(rt == t for (_, rt, _) in rets)]
+            for t in asleep:
+                if any(b > startk[t] for (b, e, _) in bc):
+                    fails.append((None, "Cond: thread %d still sleeps in Wait although a Broadcast was issued after it started waiting" % t))
+                elif sum(1 for (b, e, _) in sig if b > startk[t]) > sum(1 for (k, _, _) in rets if k > startk[t]):
+                    fails.append((None, "Cond: thread %d still sleeps in Wait although more Signals were issued after it started waiting than waiters returned" % t))
+    return fails
+
+
 def layered(ctx, quick, ticket_less, cas_retry):
-    return {"skipped": "not built"}
+    rng = ctx.rng
+    binp = build_layered(ctx)
+    n_runs = 2500 if quick else 120000
+    scns = ["mutex", "rwmutex", "rwmutex", "waitgroup", "once", "cond-signal", "cond-broadcast", "cond-nosignal"]
+    lines, metas = [], []
+    for i in range(n_runs):
+        scn = scns[i % len(scns)]
+        n = rng.choice([2, 3, 3, 4])
+        it = rng.choice([1, 2, 3])
+        ns = rng.choice([0, 0, 2000000]) if scn in ("mutex", "rwmutex") else 0
+        lines.append("sync %s %d %d %d %d %d %d" % (scn, n, it, rng.getrandbits(40) + 1, 6000, rng.choice([0, 0, 20, 60]), ns))
+        metas.append((scn, n, it))
+    out, rc, err = run_lines([binp], lines, timeout=3000)
+    if len(out) != len(lines):
+        raise RuntimeError("layered sync harness died: %d/%d answers: %s" % (len(out), len(lines), err[-1500:]))
+    st = {"runs": len(lines), "per_scenario": {}, "ends": {}, "events": 0, "contract_failures": 0,
+          "go_sources": "GOROOT/src/sync/{%s} + internal/sync/mutex.go of %s" % (",".join(SYNC_FILES), os.path.basename(GO124))}
+    for line, (scn, n, it), o in zip(lines, metas, out):
+        end, e, final = o.split(" # ")
+        evs = []
+        if e != "-":
+            for x in e.split(","):
+                k, t, w = x.split(":")
+                evs.append((int(k), int(t), w))
+        st["per_scenario"][scn] = st["per_scenario"].get(scn, 0) + 1
+        st["ends"][end.split(":")[0]] = st["ends"].get(end.split(":")[0], 0) + 1
+        st["events"] += len(evs)
+        for (key, what) in judge_layered(scn, n, end, evs, final):
+            st["contract_failures"] += 1
+            ctx.report(key or ("layered:" + line)[:300], what + "  [Go's own sync sources on the verbatim sema_llgo.go, request `%s`]" % line,
+                       {"request": line, "end": end, "events": e[-1500:], "final": final})
+    return st
